@@ -1,6 +1,7 @@
 package state
 
 import (
+	"errors"
 	"sort"
 	"sync"
 
@@ -15,6 +16,27 @@ type RecDB struct {
 	mu   sync.Mutex
 	ent  map[string][]byte // bucket id + "\x00|" + key -> value
 	sets int
+	// fault injection: the failAt-th Set call from now on fails once (0 = off)
+	failAt int
+	faults int
+}
+
+// ErrInjected is the transient write fault.
+var ErrInjected = errors.New("injected transient write fault")
+
+// FailSetAfter arms a one-shot write fault: the n-th Set call from now
+// (n >= 1) returns ErrInjected without writing.
+func (d *RecDB) FailSetAfter(n int) {
+	d.mu.Lock()
+	d.failAt = n
+	d.mu.Unlock()
+}
+
+// Faults is the number of injected faults that fired.
+func (d *RecDB) Faults() int {
+	d.mu.Lock()
+	defer d.mu.Unlock()
+	return d.faults
 }
 
 // NewRecDB returns an empty recording database.
@@ -45,6 +67,13 @@ func (b *recBucket) Get(key []byte) ([]byte, error) { return b.real.Get(key) }
 func (b *recBucket) Has(key []byte) (bool, error)   { return b.real.Has(key) }
 func (b *recBucket) Set(key, value []byte) error {
 	b.d.mu.Lock()
+	if b.d.failAt > 0 {
+		if b.d.failAt--; b.d.failAt == 0 {
+			b.d.faults++
+			b.d.mu.Unlock()
+			return ErrInjected
+		}
+	}
 	b.d.ent[EntryKey(b.id, key)] = append([]byte(nil), value...)
 	b.d.sets++
 	b.d.mu.Unlock()
